@@ -57,6 +57,9 @@ ChainDepth == 60
 \* of decoding must stay proportional to the length -- a per-member scan of what was read so far is quadratic
 Wide(kind, n) == [j |-> "wide", kind |-> kind, n |-> n]
 WideShapes == {<<"wide-iri", Wide("iri", 6000)>>, <<"wide-obj", Wide("obj", 3000)>>, <<"wide-idless", Wide("idless", 3000)>>}
+WideMapShapes == {<<"wide-langmap", Wide("langmap", 8000)>>}                     \* a language map with thousands of tags
+WideDocShapes == {<<"wide-members", Wide("members", 8000)>>, <<"wide-repeated", Wide("repeated", 8000)>>,   \* unknown members; one member repeated
+                  <<"wide-escapes", Wide("escapes", 8000)>>}                        \* one text made of escape sequences
 WideTerms == {"to", "cc", "tag", "attachment", "items", "orderedItems", "oneOf", "object", "audience", "url"}
 
 TermsOf(g) == Terms(Props(g)) \cup {t \o "Map" : t \in {"name", "summary", "content"}} \cup {"@context", "zzz-unknown"}
@@ -117,10 +120,12 @@ Cells == UNION {{[g |-> g, t |-> t, shape |-> s[1], nest |-> n, base |-> "min"] 
          \cup {[g |-> "top", t |-> "document", shape |-> s[1], nest |-> "top", base |-> "min"] : s \in HShapes}
          \cup UNION {{[g |-> g, t |-> t, shape |-> ws[1], nest |-> "top", base |-> "min"] : t \in WideTerms \cap Terms(Props(g)), ws \in WideShapes}
                       : g \in (IF Tier = "thorough" THEN CellTypes ELSE CellTypes \cap {"Object", "Activity", "OrderedCollection", "Question", "Link"})}
-         \cup {[g |-> "top", t |-> "document", shape |-> ws[1], nest |-> "top", base |-> "min"] : ws \in WideShapes}
+         \cup {[g |-> "top", t |-> "document", shape |-> ws[1], nest |-> "top", base |-> "min"] : ws \in WideShapes \cup WideDocShapes}
+         \cup {[g |-> g, t |-> t, shape |-> ws[1], nest |-> "top", base |-> "min"] : g \in CellTypes \cap {"Object", "Actor", "Link"},
+                                                                                  t \in {"nameMap", "contentMap", "summaryMap", "name"}, ws \in WideMapShapes}
          \cup (IF Tier = "model" THEN {} ELSE
                {[g |-> "chain", t |-> pr[1] \o "/" \o pr[2], shape |-> st, nest |-> "top", base |-> "min"] : pr \in ChainPairs(Tier), st \in ChainStyles})
-ShapeNode(name) == (CHOOSE s \in HShapes \cup WideShapes : s[1] = name)[2]
+ShapeNode(name) == (CHOOSE s \in HShapes \cup WideShapes \cup WideMapShapes \cup WideDocShapes : s[1] = name)[2]
 SplitAt(t) == CHOOSE i \in 1..Len(t) : SubSeq(t, i, i) = "/"
 DocOf(c) == IF c.g = "top" THEN ShapeNode(c.shape)
             ELSE IF c.g = "chain" THEN Chain(SubSeq(c.t, 1, SplitAt(c.t) - 1), SubSeq(c.t, SplitAt(c.t) + 1, Len(c.t)), c.shape, ChainDepth)
